@@ -51,6 +51,31 @@ def run(F, R):
                     "%s::%s lists __Type wrappers without the visible_types filter" % (ob.impl_self, ob.name))
     R.floor("R18.1", "enumerating introspection resolvers", n, 9)
 
+    R.rule("R18.1b", "the visibility test is unconditional: every closure (filter) that calls registry::is_visible calls it on every path to its return — it may "
+                     "not be short-circuited by another condition such as includeDeprecated")
+    nvis = 0
+    for owner, bs in sorted(fams.items()):
+        for x in bs:
+            if x.kind != "closure":
+                continue
+            vis = [c for c in x.calls() if c.callee and c.callee.endswith("registry::is_visible")]
+            if not vis:
+                continue
+            nvis += 1
+            okv = all(x.must_pass([c.bb for c in vis], r_) for r_ in x.exits())
+            R.check(okv, "R18.1b", "visibility-short-circuited:" + re.sub(r"\{closure#\d+\}", "{c}", re.sub(r"\{impl#\d+\}", "{impl}", owner.replace("async_graphql::model::", ""))), x.where(),
+                    "is_visible on every path", "a filter can return without consulting is_visible (short-circuit): hidden elements are listed under some argument values")
+    R.floor("R18.1b", "filter closures calling is_visible", nvis, 4)
+
+    R.rule("R18.6", "system types are exactly the names starting with two underscores plus the five built-in scalars: is_system_type (whose members are always "
+                    "visible) tests the prefix \"__\"")
+    ist = F.one(r"async_graphql::registry::is_system_type$", kind="fn")
+    strs = {s_ for s_, _, _ in ist.const_strs()}
+    chars = [ist.kconst(a) for c in ist.calls() for a in c.args if a[0] == "k"]
+    single = any(k and k.get("ty") == "char" for k in chars)
+    R.check("__" in strs and not single and strs <= {"__", "Boolean", "Int", "Float", "String", "ID"}, "R18.6", "is_system_type:prefix", ist.where(), "prefix \"__\" + 5 scalars",
+            "is_system_type accepts %s%s: user types matching it are always visible in introspection regardless of their visibility rule" % (sorted(strs), " / a single-character prefix" if single else ""))
+
     R.rule("R18.2", "__Type::kind and the per-kind accessors match on every MetaType variant")
     want = set(F.variants(r"^async_graphql::registry::MetaType$"))
     kinds = [b for b in F.find(MODEL + r"::(r#)?type::\{impl#\d+\}::kind(::\{closure#0\})*$")]
